@@ -328,6 +328,11 @@ pub fn bfs(name: &str, depth: usize, props: &[Prop], threads: usize, found: &mut
         }
     }
     res.states = visited.len();
+    if let Ok(path) = std::env::var("HIST_DUMP") {
+        // debugging aid: representative histories of all states
+        let text: String = res.all_states.iter().map(|h| format!("{:?}\n", h)).collect();
+        let _ = std::fs::write(path, text);
+    }
     res
 }
 
